@@ -213,3 +213,95 @@ Proof.
   repeat split; auto.
   all: try (constructor; [destruct maximize; exact Hb | eapply Forall_impl; [|exact Hall]; intros a Ha; destruct maximize; exact Ha]).
 Qed.
+
+(** ** the clipping scripted optimiser: the box part of the contract holds whatever the script proposes *)
+Definition pair_ok (l h : xnum R) : Prop :=
+  l <> XPosInf /\ h <> XNegInf /\ match l, h with XFin a, XFin b => a <= b | _, _ => True end.
+
+Lemma clip1_ok l h x : pair_ok l h -> lo_ok l (clip1 l h x) = true /\ hi_ok h (clip1 l h x) = true.
+Proof.
+  intros (Hl & Hh & Hlh). unfold clip1, nltb.
+  destruct l as [| |a|]; destruct h as [| |b|]; try congruence; cbn [lo_ok hi_ok]; numR; auto.
+  - split; auto. destruct (Rleb x b) eqn:E; cbn [negb]; apply Rleb_true; [apply Rleb_true in E; lra | lra].
+  - split; auto. destruct (Rleb x b) eqn:E; cbn [negb]; apply Rleb_true; [apply Rleb_true in E; lra | lra].
+  - split; auto. destruct (Rleb a x) eqn:E; cbn [negb]; apply Rleb_true; [apply Rleb_true in E; lra | lra].
+  - set (y := if negb (Rleb a x) then a else x).
+    assert (Hy : a <= y) by (unfold y; destruct (Rleb a x) eqn:E; cbn [negb]; [apply Rleb_true in E; lra | lra]).
+    destruct (Rleb y b) eqn:E; cbn [negb].
+    + apply Rleb_true in E. split; apply Rleb_true; lra.
+    + split; apply Rleb_true; lra.
+  - split; auto. destruct (Rleb a x) eqn:E; cbn [negb]; apply Rleb_true; [apply Rleb_true in E; lra | lra].
+Qed.
+
+Lemma clip_length lo hi x : length (clip lo hi x) = length x.
+Proof. revert lo hi; induction x as [|v x IH]; intros lo hi; cbn; auto. Qed.
+
+(** a box is well formed when no lower end is +inf, no upper end -inf, and finite ends are ordered; the bound lists
+    are either both empty ("no bounds") or as long as the point *)
+Fixpoint box_wf (lo hi : list (xnum R)) : Prop :=
+  match lo, hi with
+  | [], [] => True
+  | l :: lo', h :: hi' => pair_ok l h /\ box_wf lo' hi'
+  | _, _ => False
+  end.
+
+Lemma box_ok_nil x : box_ok (F:=R) [] [] x = true.
+Proof. reflexivity. Qed.
+
+Lemma clip_box_ok lo : forall hi x, box_wf lo hi -> box_ok lo hi (clip lo hi x) = true.
+Proof.
+  induction lo as [|l lo IH]; intros [|h hi] x Hwf; cbn in Hwf; try contradiction.
+  - apply box_ok_nil.
+  - destruct Hwf as [Hp Hwf]. destruct x as [|v x]; [reflexivity|].
+    cbn [clip hd tl]. destruct (clip1_ok l h v Hp) as [H1 H2].
+    specialize (IH hi x Hwf). unfold box_ok in *. cbn. rewrite H1, H2. cbn.
+    apply andb_true_iff in IH as [I1 I2]. rewrite I1, I2. reflexivity.
+Qed.
+
+Theorem scripted_clip_honours_contract maximize props lo hi x0 f :
+  box_wf lo hi -> box_ok lo hi x0 = true -> Forall (fun x => length x = length x0) props ->
+  contract maximize lo hi x0 f (scripted_clip maximize props None lo hi x0 f).
+Proof.
+  intros Hwf H0 Hlen. unfold scripted_clip. apply scripted_honours_contract.
+  constructor; [split; auto|].
+  apply Forall_forall. intros y Hy. apply in_map_iff in Hy as (x & <- & Hx).
+  rewrite Forall_forall in Hlen. split; [apply clip_box_ok; auto | rewrite clip_length; auto].
+Qed.
+
+(** ** every model evaluation respects the user's bounds, one list or both, for the wrappers that leave the bounds to the
+       optimiser (optimize_cons, optimize_lbfgsb: BPlain, no log transform) -- under the box part of the contract alone *)
+Section EvalsWithin.
+  Variable ll_multinom ll_plain : list R -> option R.
+  Notation OBJ := (scipy_objective ll_multinom ll_plain).
+
+  Theorem scipy_plain_evals_within cfg (O : optimiser R) p0 lower upper fx multinom s w d0 :
+    wc_oracle_bounds cfg = BPlain -> wc_obj_log cfg = false -> wc_start_log cfg = false ->
+    scipy_wrapper ll_multinom ll_plain cfg O p0 lower upper (Some fx) multinom s = Some w ->
+    project_down p0 (Some fx) = Some d0 ->
+    Forall (fun x => box_ok (w_lo w) (w_hi w) x = true /\ length x = length (w_start w)) (o_trace (w_oracle w)) ->
+    Forall (free_within fx (dflt_bounds lower (length p0)) (dflt_bounds upper (length p0))) (w_evals w).
+  Proof.
+    intros Hm Hlg Hsl Hw Hd Hbox.
+    destruct (scipy_inv _ _ _ _ _ _ _ _ _ _ _ Hw) as (lo & hi & d0' & Hlo & Hhi & Hd' & Hrest).
+    cbv zeta in Hrest. destruct Hrest as (Elo & Ehi & Est & Eor & _ & _ & Eev).
+    rewrite Hd in Hd'. injection Hd' as <-.
+    rewrite Hm in Hlo, Hhi. unfold oracle_bounds in Hlo, Hhi.
+    fold (dflt_bounds lower (length p0)) in Hlo. fold (dflt_bounds upper (length p0)) in Hhi.
+    destruct (project_down (dflt_bounds lower (length p0)) (Some fx)) as [lo0|] eqn:El; try discriminate.
+    destruct (project_down (dflt_bounds upper (length p0)) (Some fx)) as [hi0|] eqn:Eu; try discriminate.
+    cbn in Hlo, Hhi. injection Hlo as <-. injection Hhi as <-.
+    pose proof (project_down_some_length _ _ _ El) as Ll.
+    pose proof (project_down_some_length _ _ _ Eu) as Lu.
+    pose proof (project_down_length _ _ _ Hd) as Ld. cbn in Ld.
+    cbn in El, Eu. rewrite Ll, Nat.eqb_refl in El. rewrite Lu, Nat.eqb_refl in Eu.
+    injection El as <-. injection Eu as <-.
+    rewrite Eev, <- Eor. apply Forall_forall. intros e He.
+    apply in_flat_map in He as (x & Hx & He).
+    rewrite Forall_forall in Hbox. destruct (Hbox x Hx) as [Hb Hl].
+    destruct (scipy_objective_cases ll_multinom ll_plain cfg lower upper multinom (Some fx) s x) as [[_ E]|[_ E]];
+      rewrite E in He; cbn [snd] in He; [contradiction|].
+    destruct He as [<-|[]]. rewrite Hlg. cbn [tr project_up].
+    rewrite Elo, Ehi in Hb. apply box_free_within; auto.
+    rewrite Hl, Est, Hsl. exact Ld.
+  Qed.
+End EvalsWithin.
